@@ -603,9 +603,10 @@ pub fn c02(ctx: &Ctx) -> ! {
 }
 
 
-pub fn module_check(property: &str, p: &Placed, server: &mut Server, ctx: &Ctx) -> ModResult {
+pub fn module_check(property: &str, p: &Placed, server: &mut Server, cwd: &std::path::Path, ctx: &Ctx) -> ModResult {
     let thorough = ctx.thorough();
     match property {
+        "C03" | "C04" | "C11" => crate::e2x::export_module(p, server, cwd, property, ctx.seed, false),
         "C01" => c01_module(p, server, if thorough { 256 } else { 64 }, ctx.seed),
         "C02" => c02_module(p, server, 48, if thorough { 96 } else { 32 }, ctx.seed),
         _ => inconclusive("no module check for this property"),
@@ -637,7 +638,7 @@ pub fn replay_module(ctx: &Ctx, property: &str, case: &Value) -> Vec<Value> {
     if corpus.modules.is_empty() {
         return vec![json!({"signature": "replay-does-not-compile", "message": format!("the module of the replay file no longer compiles: {}", corpus.discarded_samples.first().cloned().unwrap_or_default())})];
     }
-    let results = for_each_module(&sub, &corpus, |p, s, _| module_check(property, p, s, &sub));
+    let results = for_each_module(&sub, &corpus, |p, s, cwd| module_check(property, p, s, cwd, &sub));
     results.into_iter().flat_map(|(_, r)| r.failures).collect()
 }
 
@@ -933,7 +934,7 @@ pub fn shrink(ctx: &Ctx, property: &str, failure: &Value, max_rounds: usize) -> 
             })
             .collect();
         let corpus = build(ctx, named, &subjects::SlotCfg::default());
-        let results = for_each_module(ctx, &corpus, |p, s, _| module_check(property, p, s, ctx));
+        let results = for_each_module(ctx, &corpus, |p, s, cwd| module_check(property, p, s, cwd, ctx));
         let mut hit: Option<(usize, Value)> = None;
         for (i, r) in results {
             if let Some(f) = r.failures.into_iter().find(|f| f["signature"].as_str() == Some(sig.as_str())) {
@@ -992,7 +993,7 @@ pub fn regression(ctx: &Ctx, property: &str, known: &[Known], out: &mut Outcome)
         return;
     }
     let corpus = build(ctx, modules, &subjects::SlotCfg::default());
-    let results = for_each_module(ctx, &corpus, |p, s, _| (p.module.name.clone(), module_check(property, p, s, ctx)));
+    let results = for_each_module(ctx, &corpus, |p, s, cwd| (p.module.name.clone(), module_check(property, p, s, cwd, ctx)));
     for (_, (name, r)) in results {
         let idx: usize = name[1..].parse().unwrap_or(0);
         let (file, k) = &owners[idx];
